@@ -141,7 +141,28 @@ VCHECK("c08.iq", 300)
     QString children;
     std::string payloadKind;
     switch (t.weighted({ 8, 1, 1, 1, 1 })) {
-    case 0: children = pl.iqChildren[int(t.u(uint32_t(pl.iqChildren.size())))]; payloadKind = "known-query"; break;
+    case 0:
+        children = pl.iqChildren[int(t.u(uint32_t(pl.iqChildren.size())))];
+        payloadKind = "known-query";
+        // the same query with each of its child elements 0-3 times (a roster push with no or several items, a disco result
+        // without identities, ...): the tests' documents almost always have exactly one of each
+        if (t.prob(1, 3)) {
+            auto pq = xu::parseFragment(children);
+            if (pq.ok()) {
+                xm::XNode n = xm::fromDom(pq.el);
+                QVector<xm::XNode> kids;
+                for (const auto &k : n.kids) {
+                    int rep = k.isText ? 1 : int(t.u(4));
+                    for (int i = 0; i < rep; i++)
+                        kids.push_back(k);
+                }
+                n.kids = kids;
+                children.clear();
+                xm::toXml(n, QStringLiteral("jabber:client"), children);
+                payloadKind = "known-query-children-repeated";
+            }
+        }
+        break;
     case 1: children = QStringLiteral("<unknown-query xmlns='urn:verif:unknown'/>"); payloadKind = "unknown-element"; break;
     case 2: payloadKind = "no-child"; break;
     case 3: children = pl.iqChildren[int(t.u(uint32_t(pl.iqChildren.size())))] + pl.iqChildren[int(t.u(uint32_t(pl.iqChildren.size())))]; payloadKind = "several-children"; break;
@@ -205,7 +226,7 @@ VCHECK("c08.iq", 300)
     const bool isRequest = !typeAbsent && (type == u"get" || type == u"set");
     const bool isResponse = !typeAbsent && (type == u"result" || type == u"error");
     if (isRequest) {
-        if (payloadKind == "known-query" || idKind == "collides-with-own-request")
+        if (payloadKind == "known-query" || payloadKind == "known-query-children-repeated" || idKind == "collides-with-own-request")
             c.nontrivial(vh::fnv(desc));
         std::string what = q(allChildren);
         c.require(repliesWithId >= 1, "c08 request-not-answered " + what + " type=" + q(type), [&] {
